@@ -7,7 +7,7 @@ import json, os, re, subprocess
 ROOT = os.path.dirname(os.path.dirname(os.path.abspath(__file__)))
 SCHED = os.path.join(ROOT, "tools", "sched")
 CACHE = os.path.join(ROOT, ".cache")
-M = 8          # events per thread (tbmc.rs)
+M = 7          # events per thread (tbmc.rs)
 TMAX = 4
 OPNAMES = {0: "nextid", 1: "chunk", 2: "buf", 3: "skip", 4: "len", 5: "next"}  # 6, 7 (for_each) are not replayable by tools/sched
 BUFN = 2
@@ -47,7 +47,7 @@ def decode(code, nt, nops):
     events = []
     for t in range(nt):
         c = take()
-        for j in range(c):
+        for j in range(min(c, M)):
             ts, loc, kind, operand, before, after, pred, ord_, op = (take() for _ in range(9))
             for _ in range(3 * TMAX):
                 take()
@@ -68,12 +68,9 @@ def decode(code, nt, nops):
 
 def schedule_of(tr):
     sched = []
-    two_phase = any(e["kind"] == 4 for e in tr["events"])
     for e in sorted(tr["events"], key=lambda e: e["ts"]):
-        # two-event model: kind 3 = entering the wrapped next (position read), kind 4 = leaving it with an element;
-        # atomic model (no kind-4 events at all): one event stands for entering and leaving
         sched.append(e["t"])
-        if e["kind"] == 3 and not two_phase and e["before"] < tr["len"]:
+        if e["kind"] == 3:  # use of the wrapped iterator = enter + exit
             sched.append(e["t"])
     return sched
 
